@@ -556,6 +556,7 @@ local_finish:
 	tm_s.tm_mon -= 1;	/* 0 - 11 */
 	tm_s.tm_year -= 1900;
 	tm_s.tm_isdst = -1;
+	tm_s.tm_wday = -1;	/* Set by timegm()/mktime() unless they fail */
 
 	tm_s.tm_sec -= gmtoff;
 
@@ -571,7 +572,8 @@ local_finish:
 		 */
 		tloc = mktime(&tm_s);
 	}
-	if(tloc == -1) {
+	if(tloc == -1 && tm_s.tm_wday == -1) {
+		/* A failure, not the second before the Epoch */
 		errno = EINVAL;
 		return -1;
 	}
